@@ -158,7 +158,7 @@ def _run_config(ctx, r, idx, bench, use_app):
 			ctx.count("decision:%s" % reason)
 			if t.fh is not None and reason in ("deliver", "other_frequency"):
 				ctx.count("decisions_for_hopping_recipient")
-			ctx.seen(hash((idx, b, j)))
+			ctx.seen(hash((ctx.shard[0], idx, b, j)))
 			if reason != "deliver":
 				if got[j]:
 					ctx.violation("routing", {"history": log, "burst": trxd.brief(m), "sender": names[s],
